@@ -10,26 +10,26 @@ namespace RJson.Dec
 open RJson.FP
 
 /-- put down extra digits, any run: the digits written, followed by `z'` dropped digits of value `t'`, are the exact quotient -/
-theorem rsExtra_approx (k P ca cb : Nat) :
+theorem rsExtra_approx (k P ca cb : Nat) (tr0 : Bool) :
     ∀ (fuel w z t n j m : Nat) (d : Array UInt8) (tr : Bool), d.size = 800 → w ≤ 800 → DigitsOK d w → n < 2 ^ k * 10 →
       (val d w * 10 ^ z + t) * 2 ^ k * 10 + n = P * 10 ^ j → t < 10 ^ z → w + z + ca = cb + j → (0 < z → w = 800) →
-      (n = 0 ∨ (2 ^ m ∣ n ∧ m ≤ k ∧ k + 2 ≤ fuel + m)) →
+      (n = 0 ∨ (2 ^ m ∣ n ∧ m ≤ k ∧ k + 2 ≤ fuel + m)) → tr = (tr0 || decide (t ≠ 0)) →
       let res := rsExtra k (2 ^ k - 1) fuel w n d tr
       ∃ z' t' j', (val res.2.1 res.1 * 10 ^ z' + t') * 2 ^ k * 10 = P * 10 ^ j' ∧ t' < 10 ^ z' ∧ res.1 + z' + ca = cb + j' ∧
-        (0 < z' → res.1 = 800) := by
+        (0 < z' → res.1 = 800) ∧ res.2.2 = (tr0 || decide (t' ≠ 0)) := by
   intro fuel
   induction fuel with
   | zero =>
-    intro w z t n j m d tr hsz hw hdw hn hinv ht hpos hz hterm
+    intro w z t n j m d tr hsz hw hdw hn hinv ht hpos hz hterm hfl
     have hn0 : n = 0 := by
       rcases hterm with h | ⟨_, h2, h3⟩
       · exact h
       · omega
     subst hn0
     simp only [rsExtra]
-    exact ⟨z, t, j, by simpa using hinv, ht, hpos, hz⟩
+    exact ⟨z, t, j, by simpa using hinv, ht, hpos, hz, hfl⟩
   | succ fuel ih =>
-    intro w z t n j m d tr hsz hw hdw hn hinv ht hpos hz hterm
+    intro w z t n j m d tr hsz hw hdw hn hinv ht hpos hz hterm hfl
     have hp : 0 < 2 ^ k := by positivity
     simp only [rsExtra]
     by_cases hn0 : n > 0
@@ -75,7 +75,7 @@ theorem rsExtra_approx (k P ca cb : Nat) :
             have : (val d w * 10 + n / 2 ^ k) * 2 ^ k * 10 + n % 2 ^ k * 10 =
                 (val d w * 2 ^ k * 10 + (2 ^ k * (n / 2 ^ k) + n % 2 ^ k)) * 10 := by ring
             rw [this, hdm, hinv, Nat.pow_succ]; ring)
-          (by simp) (by omega) (by omega) hterm'
+          (by simp) (by omega) (by omega) hterm' hfl
         exact hres
       · rw [if_neg hfit]
         have hw800 : w = 800 := by omega
@@ -89,16 +89,28 @@ theorem rsExtra_approx (k P ca cb : Nat) :
             rw [Nat.pow_succ]
             have : n / 2 ^ k ≤ 9 := by rw [← Nat.shiftRight_eq_div_pow]; exact hdig
             omega)
-          (by omega) (fun _ => hw800) hterm'
+          (by omega) (fun _ => hw800) hterm' (by
+            rw [hfl, Nat.shiftRight_eq_div_pow]
+            by_cases ht0 : t = 0
+            · subst ht0
+              by_cases hq : n / 2 ^ k = 0
+              · simp [hq]
+              · have : n / 2 ^ k > 0 := Nat.pos_of_ne_zero hq
+                simp [hq, this]
+            · have htp : 0 < t := Nat.pos_of_ne_zero ht0
+              have : t * 10 + n / 2 ^ k ≠ 0 :=
+                Nat.ne_of_gt (Nat.lt_of_lt_of_le (Nat.mul_pos htp (by norm_num)) (Nat.le_add_right _ _))
+              simp [ht0, this])
         exact hres
     · rw [if_neg hn0]
       have hn00 : n = 0 := by omega
       subst hn00
-      exact ⟨z, t, j, by simpa using hinv, ht, hpos, hz⟩
+      exact ⟨z, t, j, by simpa using hinv, ht, hpos, hz, hfl⟩
 
 /-- **`rightShift(a, k)`, any run**: the result is `a / 2^k` cut off after 800 digits -/
 theorem rightShift_approx (a : Decimal) (h : WF a) (hnz : NZ a) (hnd : 1 ≤ a.nd) (k : Nat) (hk1 : 1 ≤ k) (hk : k ≤ 60) :
-    ∃ δ : ℚ, 0 ≤ δ ∧ δ < 10 ^ ((rightShift a k).dp - 800) ∧ aval a / 2 ^ k = aval (rightShift a k) + δ := by
+    ∃ δ : ℚ, 0 ≤ δ ∧ δ < 10 ^ ((rightShift a k).dp - 800) ∧ aval a / 2 ^ k = aval (rightShift a k) + δ ∧
+      (rightShift a k).trunc = (a.trunc || decide (δ ≠ 0)) := by
   have hp : (0 : ℕ) < 2 ^ k := by positivity
   simp only [rightShift]
   have hpick := rsPickup_spec a h k hk1 hk (a.nd + 1) 0 0 (by omega) (by omega) rfl (by positivity) (fun _ _ => trivial)
@@ -148,8 +160,8 @@ theorem rightShift_approx (a : Decimal) (h : WF a) (hnz : NZ a) (hnd : 1 ≤ a.n
       by_cases hz : n1 = 0
       · exact .inl hz
       · exact .inr ⟨by simp, by omega, by omega⟩
-    have hext := rsExtra_approx k (val a.d a.nd) r a.nd 2000 w 0 0 n1 j0 0 d1 a.trunc hsz1 hw1 hd1 hn1' hinv1 (by simp) hpos1
-      (fun hh => absurd hh (by omega)) hterm
+    have hext := rsExtra_approx k (val a.d a.nd) r a.nd a.trunc 2000 w 0 0 n1 j0 0 d1 a.trunc hsz1 hw1 hd1 hn1' hinv1 (by simp) hpos1
+      (fun hh => absurd hh (by omega)) hterm (by simp)
     have hwfx := rsExtra_wf k 2000 w n1 d1 a.trunc hsz1 hw1 hd1 hn1'
     have hnzx := rsExtra_nz k 2000 w n1 d1 a.trunc hsz1 hn1' hj1 hj2
     have hposx := rsExtra_pos k (2 ^ k - 1) 2000 w n1 d1 a.trunc hsz1 (by
@@ -163,7 +175,7 @@ theorem rightShift_approx (a : Decimal) (h : WF a) (hnz : NZ a) (hnd : 1 ≤ a.n
     obtain ⟨w2, d2, tr2⟩ := re
     simp only [] at hext hwfx hposx ⊢
     obtain ⟨e1, e2, e3⟩ := hwfx
-    obtain ⟨z', t', j', f2, ft, f3, f4⟩ := hext
+    obtain ⟨z', t', j', f2, ft, f3, f4, f5⟩ := hext
     have hwf2 : WF { a with d := d2, nd := w2, dp := a.dp - ((r : ℤ) - 1), trunc := tr2 } := ⟨e1, e2, e3⟩
     obtain ⟨t1, t2, t3, t4⟩ := trim_spec _ hwf2
     have hnz2 : NZ { a with d := d2, nd := w2, dp := a.dp - ((r : ℤ) - 1), trunc := tr2 } := fun hh => hnzx hh
@@ -183,7 +195,18 @@ theorem rightShift_approx (a : Decimal) (h : WF a) (hnz : NZ a) (hnd : 1 ≤ a.n
     have hV : (val a.d a.nd : ℚ) = ((val d2 w2 : ℚ) * 10 ^ z' + t') * 2 ^ k * 10 / 10 ^ j' := by
       rw [eq_div_iff (by positivity)]; exact hq.symm
     have hE : a.dp - ((r : ℤ) - 1) - (w2 : ℤ) = (a.dp - (a.nd : ℤ)) + ((z' : ℤ) + 1 - (j' : ℤ)) := by omega
-    refine ⟨(t' : ℚ) * 10 ^ (a.dp - ((r : ℤ) - 1) - (w2 : ℤ) - (z' : ℤ)), by positivity, ?_, ?_⟩
+    refine ⟨(t' : ℚ) * 10 ^ (a.dp - ((r : ℤ) - 1) - (w2 : ℤ) - (z' : ℤ)), by positivity, ?_, ?_, ?_⟩
+    rotate_left 2
+    · -- the flag: set exactly when a non-zero digit was dropped
+      rw [t4]
+      show tr2 = (a.trunc || decide ((t' : ℚ) * 10 ^ (a.dp - ((r : ℤ) - 1) - (w2 : ℤ) - (z' : ℤ)) ≠ 0))
+      rw [f5]
+      congr 1
+      have hpw : (10 : ℚ) ^ (a.dp - ((r : ℤ) - 1) - (w2 : ℤ) - (z' : ℤ)) ≠ 0 := by positivity
+      by_cases ht0 : t' = 0
+      · simp [ht0]
+      · have : (t' : ℚ) ≠ 0 := by exact_mod_cast ht0
+        simp [ht0, this, hpw]
     · have htq : (t' : ℚ) < 10 ^ (z' : ℤ) := by rw [zpow_natCast]; exact_mod_cast ft
       by_cases hz0 : z' = 0
       · subst hz0
@@ -213,10 +236,10 @@ theorem rightShift_approx (a : Decimal) (h : WF a) (hnz : NZ a) (hnd : 1 ≤ a.n
 /-! ## left shift -/
 
 /-- putting one digit down at `w - 1`, any run; `t` is the value of the digits dropped so far (positions 800 and beyond) -/
-theorem put_approx (d : Array UInt8) (w e W rem t : Nat) (tr : Bool) (hsz : d.size = 800) (hw1 : 1 ≤ w) (hwe : w + e = W)
-    (hrem : rem ≤ 9) (hok : OkFrom d w (min W 800)) (ht : t < 10 ^ (min e (W - min W 800))) :
+theorem put_approx (d : Array UInt8) (w e W rem t : Nat) (tr tr0 : Bool) (hsz : d.size = 800) (hw1 : 1 ≤ w) (hwe : w + e = W)
+    (hrem : rem ≤ 9) (hok : OkFrom d w (min W 800)) (ht : t < 10 ^ (min e (W - min W 800))) (hfl : tr = (tr0 || decide (t ≠ 0))) :
     ∃ d' tr' t', lsPut d ((w : ℤ) - 1) rem tr = some (d', tr') ∧ d'.size = 800 ∧ (∀ i, i < w - 1 → d'[i]! = d[i]!) ∧
-      OkFrom d' (w - 1) (min W 800) ∧ t' < 10 ^ (min (e + 1) (W - min W 800)) ∧
+      OkFrom d' (w - 1) (min W 800) ∧ t' < 10 ^ (min (e + 1) (W - min W 800)) ∧ tr' = (tr0 || decide (t' ≠ 0)) ∧
       seg d' (w - 1) (min W 800 - (w - 1)) * 10 ^ (W - min W 800) + t' =
         rem * 10 ^ e + seg d w (min W 800 - w) * 10 ^ (W - min W 800) + t := by
   rw [lsPut_nat d w rem tr hw1]
@@ -224,7 +247,7 @@ theorem put_approx (d : Array UInt8) (w e W rem t : Nat) (tr : Bool) (hsz : d.si
   · rw [if_pos hfit]
     have hw800 : w - 1 < 800 := by omega
     have hc : min W 800 - (w - 1) = (min W 800 - w) + 1 := by omega
-    refine ⟨_, _, t, rfl, by rw [size_set!]; exact hsz, ?_, ?_, ?_, ?_⟩
+    refine ⟨_, _, t, rfl, by rw [size_set!]; exact hsz, ?_, ?_, ?_, hfl, ?_⟩
     · intro i hi
       rw [getElem!_set! d (w - 1) i _ hfit, if_neg (by omega)]
     · intro i h1 h2
@@ -241,7 +264,7 @@ theorem put_approx (d : Array UInt8) (w e W rem t : Nat) (tr : Bool) (hsz : d.si
     have hw800 : 800 ≤ w - 1 := by omega
     have hc1 : min W 800 - (w - 1) = 0 := by omega
     have hc2 : min W 800 - w = 0 := by omega
-    refine ⟨_, _, rem * 10 ^ e + t, rfl, hsz, fun _ _ => rfl, ?_, ?_, ?_⟩
+    refine ⟨_, _, rem * 10 ^ e + t, rfl, hsz, fun _ _ => rfl, ?_, ?_, ?_, ?_⟩
     · intro i h1 h2; omega
     · have he1 : min (e + 1) (W - min W 800) = e + 1 := by omega
       have he0 : min e (W - min W 800) = e := by omega
@@ -249,25 +272,33 @@ theorem put_approx (d : Array UInt8) (w e W rem t : Nat) (tr : Bool) (hsz : d.si
       rw [he1, Nat.pow_succ]
       have : rem * 10 ^ e ≤ 9 * 10 ^ e := Nat.mul_le_mul_right _ hrem
       omega
+    · rw [hfl]
+      have hpe : 0 < 10 ^ e := by positivity
+      by_cases hr0 : rem = 0
+      · subst hr0; simp
+      · have : rem * 10 ^ e + t ≠ 0 :=
+          Nat.ne_of_gt (Nat.lt_of_lt_of_le (Nat.mul_pos (Nat.pos_of_ne_zero hr0) hpe) (Nat.le_add_right _ _))
+        simp [hr0, this]
     · rw [hc1, hc2]; simp [seg]
 
 /-- the first loop of `leftShift`, any run -/
-theorem lsMain_approx (k nd delta : Nat) (d0 : Array UInt8) (h0 : DigitsOK d0 nd) :
+theorem lsMain_approx (k nd delta : Nat) (d0 : Array UInt8) (h0 : DigitsOK d0 nd) (tr0 : Bool) :
     ∀ (r n t : Nat) (d : Array UInt8) (tr : Bool), r ≤ nd → d.size = 800 → (∀ i, i < r → d[i]! = d0[i]!) → n < 2 ^ k →
       OkFrom d (delta + r) (min (nd + delta) 800) → t < 10 ^ (min (nd - r) (nd + delta - min (nd + delta) 800)) →
+      tr = (tr0 || decide (t ≠ 0)) →
       (val d0 r * 2 ^ k + n) * 10 ^ (nd - r) +
           seg d (delta + r) (min (nd + delta) 800 - (delta + r)) * 10 ^ (nd + delta - min (nd + delta) 800) + t = val d0 nd * 2 ^ k →
       ∃ n' d' tr' t', lsMain k r ((delta + r : ℕ) : ℤ) n d tr = some (((delta : ℕ) : ℤ), n', d', tr') ∧ d'.size = 800 ∧ n' < 2 ^ k ∧
-        OkFrom d' delta (min (nd + delta) 800) ∧ t' < 10 ^ (min nd (nd + delta - min (nd + delta) 800)) ∧
+        OkFrom d' delta (min (nd + delta) 800) ∧ t' < 10 ^ (min nd (nd + delta - min (nd + delta) 800)) ∧ tr' = (tr0 || decide (t' ≠ 0)) ∧
         n' * 10 ^ nd + seg d' delta (min (nd + delta) 800 - delta) * 10 ^ (nd + delta - min (nd + delta) 800) + t' = val d0 nd * 2 ^ k := by
   intro r
   induction r with
   | zero =>
-    intro n t d tr _ hsz _ hn hok ht hval
-    refine ⟨n, d, tr, t, by simp [lsMain], hsz, hn, by simpa using hok, by simpa using ht, ?_⟩
+    intro n t d tr _ hsz _ hn hok ht hfl hval
+    refine ⟨n, d, tr, t, by simp [lsMain], hsz, hn, by simpa using hok, by simpa using ht, hfl, ?_⟩
     simpa [val] using hval
   | succ r ih =>
-    intro n t d tr hr hsz hsame hn hok ht hval
+    intro n t d tr hr hsz hsame hn hok ht hfl hval
     simp only [lsMain]
     have hp : 0 < 2 ^ k := by positivity
     have hx9 : dig d0 r ≤ 9 := dig_le9 h0 (by omega)
@@ -282,8 +313,8 @@ theorem lsMain_approx (k nd delta : Nat) (d0 : Array UInt8) (h0 : DigitsOK d0 nd
     have hrem : n1 - 10 * (n1 / 10) = n1 % 10 := by omega
     have hrem9 : n1 % 10 ≤ 9 := by omega
     rw [hrem]
-    obtain ⟨d1, tr1, t1, hput, hsz1, hlow1, hok1, ht1, hval1⟩ := put_approx d (delta + (r + 1)) (nd - (r + 1)) (nd + delta) (n1 % 10) t tr hsz
-      (by omega) (by omega) hrem9 hok ht
+    obtain ⟨d1, tr1, t1, hput, hsz1, hlow1, hok1, ht1, hfl1, hval1⟩ := put_approx d (delta + (r + 1)) (nd - (r + 1)) (nd + delta) (n1 % 10) t tr tr0 hsz
+      (by omega) (by omega) hrem9 hok ht hfl
     rw [hput]
     simp only []
     have hw' : delta + (r + 1) - 1 = delta + r := by omega
@@ -294,8 +325,8 @@ theorem lsMain_approx (k nd delta : Nat) (d0 : Array UInt8) (h0 : DigitsOK d0 nd
       rw [Nat.div_lt_iff_lt_mul (by norm_num)]; omega
     have he1 : nd - (r + 1) + 1 = nd - r := by omega
     rw [he1] at ht1
-    obtain ⟨n', d', tr', t', hres, hsz', hn', hok', ht', hval'⟩ := ih (n1 / 10) t1 d1 tr1 (by omega) hsz1
-      (fun i hi => by rw [hlow1 i (by omega)]; exact hsame i (by omega)) hquo hok1 ht1
+    obtain ⟨n', d', tr', t', hres, hsz', hn', hok', ht', hfl', hval'⟩ := ih (n1 / 10) t1 d1 tr1 (by omega) hsz1
+      (fun i hi => by rw [hlow1 i (by omega)]; exact hsame i (by omega)) hquo hok1 ht1 hfl1
       (by
         rw [Nat.add_assoc, hval1]
         have he : nd - r = (nd - (r + 1)) + 1 := by omega
@@ -310,29 +341,29 @@ theorem lsMain_approx (k nd delta : Nat) (d0 : Array UInt8) (h0 : DigitsOK d0 nd
               (val d0 r * 2 ^ k * 10 + (10 * (n1 / 10) + n1 % 10)) * 10 ^ (nd - (r + 1)) := by ring
           rw [← Nat.add_assoc, ← Nat.add_assoc, e1, hdm, ← hn1]; ring
         rw [this, hval])
-    exact ⟨n', d', tr', t', hres, hsz', hn', hok', ht', hval'⟩
+    exact ⟨n', d', tr', t', hres, hsz', hn', hok', ht', hfl', hval'⟩
 
 /-- the second loop of `leftShift`, any run -/
-theorem lsExtra_approx (W : Nat) :
+theorem lsExtra_approx (W : Nat) (tr0 : Bool) :
     ∀ (fuel w n e t : Nat) (d : Array UInt8) (tr : Bool), w ≤ fuel → w + e = W → d.size = 800 → n < 10 ^ w → (1 ≤ w → 10 ^ (w - 1) ≤ n) →
-      OkFrom d w (min W 800) → t < 10 ^ (min e (W - min W 800)) →
+      OkFrom d w (min W 800) → t < 10 ^ (min e (W - min W 800)) → tr = (tr0 || decide (t ≠ 0)) →
       ∃ d' tr' t', lsExtra fuel (w : ℤ) n d tr = some (d', tr') ∧ d'.size = 800 ∧ OkFrom d' 0 (min W 800) ∧
-        t' < 10 ^ (W - min W 800) ∧
+        t' < 10 ^ (W - min W 800) ∧ tr' = (tr0 || decide (t' ≠ 0)) ∧
         seg d' 0 (min W 800) * 10 ^ (W - min W 800) + t' = n * 10 ^ e + seg d w (min W 800 - w) * 10 ^ (W - min W 800) + t := by
   intro fuel
   induction fuel with
   | zero =>
-    intro w n e t d tr hf hwe hsz hn _ hok ht
+    intro w n e t d tr hf hwe hsz hn _ hok ht hfl
     have hw0 : w = 0 := by omega
     subst hw0
     have hn0 : n = 0 := by simpa using hn
     subst hn0
     have he : e = W := by omega
     subst he
-    refine ⟨d, tr, t, by simp [lsExtra], hsz, hok, ?_, by simp⟩
+    refine ⟨d, tr, t, by simp [lsExtra], hsz, hok, ?_, hfl, by simp⟩
     exact Nat.lt_of_lt_of_le ht (Nat.pow_le_pow_right (by norm_num) (by omega))
   | succ fuel ih =>
-    intro w n e t d tr hf hwe hsz hn hnlo hok ht
+    intro w n e t d tr hf hwe hsz hn hnlo hok ht hfl
     simp only [lsExtra]
     by_cases hn0 : n > 0
     · rw [if_pos hn0]
@@ -344,14 +375,14 @@ theorem lsExtra_approx (W : Nat) :
       have hrem : n - 10 * (n / 10) = n % 10 := by omega
       have hrem9 : n % 10 ≤ 9 := by omega
       rw [hrem]
-      obtain ⟨d1, tr1, t1, hput, hsz1, _, hok1, ht1, hval1⟩ := put_approx d w e W (n % 10) t tr hsz hw1 hwe hrem9 hok ht
+      obtain ⟨d1, tr1, t1, hput, hsz1, _, hok1, ht1, hfl1, hval1⟩ := put_approx d w e W (n % 10) t tr tr0 hsz hw1 hwe hrem9 hok ht hfl
       rw [hput]
       simp only []
       have hcast : ((w : ℤ) - 1) = ((w - 1 : ℕ) : ℤ) := by omega
       rw [hcast]
       have hpw : 10 ^ w = 10 ^ (w - 1) * 10 := by
         rw [← Nat.pow_succ]; congr 1; omega
-      obtain ⟨d', tr', t', hres, hsz', hok', ht', hval'⟩ := ih (w - 1) (n / 10) (e + 1) t1 d1 tr1 (by omega) (by omega) hsz1
+      obtain ⟨d', tr', t', hres, hsz', hok', ht', hfl', hval'⟩ := ih (w - 1) (n / 10) (e + 1) t1 d1 tr1 (by omega) (by omega) hsz1
         (by rw [Nat.div_lt_iff_lt_mul (by norm_num), ← hpw]; exact hn)
         (by
           intro hw2
@@ -359,8 +390,8 @@ theorem lsExtra_approx (W : Nat) :
           have hp2 : 10 ^ (w - 1) = 10 ^ (w - 1 - 1) * 10 := by
             rw [← Nat.pow_succ]; congr 1; omega
           rw [Nat.le_div_iff_mul_le (by norm_num), ← hp2]; exact this)
-        hok1 ht1
-      refine ⟨d', tr', t', hres, hsz', hok', ht', ?_⟩
+        hok1 ht1 hfl1
+      refine ⟨d', tr', t', hres, hsz', hok', ht', hfl', ?_⟩
       rw [hval', Nat.add_assoc, hval1, Nat.pow_succ]
       have hdm := Nat.div_add_mod n 10
       have : n / 10 * (10 ^ e * 10) + (n % 10 * 10 ^ e + seg d w (min W 800 - w) * 10 ^ (W - min W 800) + t) =
@@ -377,13 +408,14 @@ theorem lsExtra_approx (W : Nat) :
       subst hw0
       have he : e = W := by omega
       subst he
-      refine ⟨d, tr, t, rfl, hsz, hok, ?_, by simp⟩
+      refine ⟨d, tr, t, rfl, hsz, hok, ?_, hfl, by simp⟩
       exact Nat.lt_of_lt_of_le ht (Nat.pow_le_pow_right (by norm_num) (by omega))
 
 set_option maxRecDepth 10000 in
 /-- **`leftShift(a, k)`, any run**: the result is `a · 2^k` cut off after 800 digits -/
 theorem leftShift_approx (a : Decimal) (h : WF a) (hnz : NZ a) (hnd : 1 ≤ a.nd) (k : Nat) (hk1 : 1 ≤ k) (hk : k ≤ 60) :
-    ∃ b, leftShift a k = some b ∧ ∃ δ : ℚ, 0 ≤ δ ∧ δ < 10 ^ (b.dp - 800) ∧ aval a * 2 ^ k = aval b + δ := by
+    ∃ b, leftShift a k = some b ∧ ∃ δ : ℚ, 0 ≤ δ ∧ δ < 10 ^ (b.dp - 800) ∧ aval a * 2 ^ k = aval b + δ ∧
+      b.trunc = (a.trunc || decide (δ ≠ 0)) := by
   obtain ⟨D2, s, hc, hcd, hcv, hcl, hD1, hD2a, hD2b, hL1⟩ := cheat_facts k hk1 hk
   have hlead : 1 ≤ dig a.d 0 := hnz hnd
   have hP1 : 10 ^ (a.nd - 1) ≤ val a.d a.nd := val_ge_of_lead a.d hlead a.nd hnd
@@ -438,8 +470,8 @@ theorem leftShift_approx (a : Decimal) (h : WF a) (hnz : NZ a) (hnd : 1 ≤ a.nd
   have hdz : ((D2 : ℤ) - (if prefixIsLessThan (a.d.extract 0 a.nd) cs = true then 1 else 0)) = (delta : ℤ) := by omega
   rw [hwidth]
   -- the first loop
-  obtain ⟨n1, d1, tr1, t1, hm, hsz1, hn1, hok1, ht1, hval1⟩ := lsMain_approx k a.nd delta a.d h.digits a.nd 0 0 a.d a.trunc (Nat.le_refl _)
-    h.size (fun _ _ => rfl) (by positivity) (fun i h1 h2 => by omega) (by positivity) (by
+  obtain ⟨n1, d1, tr1, t1, hm, hsz1, hn1, hok1, ht1, hfl1, hval1⟩ := lsMain_approx k a.nd delta a.d h.digits a.trunc a.nd 0 0 a.d a.trunc (Nat.le_refl _)
+    h.size (fun _ _ => rfl) (by positivity) (fun i h1 h2 => by omega) (by positivity) (by simp) (by
       have : min (a.nd + delta) 800 - (delta + a.nd) = 0 := by omega
       rw [this]; simp [seg])
   rw [hm]
@@ -459,8 +491,8 @@ theorem leftShift_approx (a : Decimal) (h : WF a) (hnz : NZ a) (hnd : 1 ≤ a.nd
     have := Nat.lt_of_mul_lt_mul_right h1
     omega
   -- the second loop
-  obtain ⟨d2, tr2, t2, he, hsz2, hok2, ht2, hval2⟩ := lsExtra_approx (a.nd + delta) 64 delta n1 a.nd t1 d1 tr1 (by omega) (by omega) hsz1
-    hn1hi hn1lo hok1 ht1
+  obtain ⟨d2, tr2, t2, he, hsz2, hok2, ht2, hfl2, hval2⟩ := lsExtra_approx (a.nd + delta) a.trunc 64 delta n1 a.nd t1 d1 tr1 (by omega) (by omega) hsz1
+    hn1hi hn1lo hok1 ht1 hfl1
   rw [he]
   simp only []
   have hnd' : (if ((delta + a.nd : ℕ) : ℤ) ≥ (d2.size : ℤ) then d2.size
@@ -503,7 +535,17 @@ theorem leftShift_approx (a : Decimal) (h : WF a) (hnz : NZ a) (hnd : 1 ≤ a.nd
   generalize hX : a.nd + delta - min (a.nd + delta) 800 = X at hT ht2
   have hTq : (val d2 (min (a.nd + delta) 800) : ℚ) * 10 ^ X + t2 = (val a.d a.nd : ℚ) * 2 ^ k := by exact_mod_cast hT
   have hexp : a.dp + (delta : ℤ) - ((min (a.nd + delta) 800 : ℕ) : ℤ) = (a.dp - (a.nd : ℤ)) + (X : ℤ) := by omega
-  refine ⟨(t2 : ℚ) * 10 ^ (a.dp - (a.nd : ℤ)), by positivity, ?_, ?_⟩
+  refine ⟨(t2 : ℚ) * 10 ^ (a.dp - (a.nd : ℤ)), by positivity, ?_, ?_, ?_⟩
+  rotate_left 2
+  · rw [u4]
+    show tr2 = (a.trunc || decide ((t2 : ℚ) * 10 ^ (a.dp - (a.nd : ℤ)) ≠ 0))
+    rw [hfl2]
+    congr 1
+    have hpw : (10 : ℚ) ^ (a.dp - (a.nd : ℤ)) ≠ 0 := by positivity
+    by_cases ht0 : t2 = 0
+    · simp [ht0]
+    · have : (t2 : ℚ) ≠ 0 := by exact_mod_cast ht0
+      simp [ht0, this, hpw]
   · have htq : (t2 : ℚ) < 10 ^ (X : ℤ) := by rw [zpow_natCast]; exact_mod_cast ht2
     by_cases hX0 : X = 0
     · subst hX0
